@@ -124,7 +124,10 @@ P.fn('TeX.readSequence', params=dict(self='TeX', chars='opaque', optspace='bool=
 CALLS = {'self.readOptionalSigns': 'TeX.readOptionalSigns/any', 'self.pushToken': 'TeX.pushToken', 'self.readDecimal': 'TeX.readDecimal',
          'self.readUnitOfMeasure': 'TeX.readUnitOfMeasure/c', 'dimen': 'opaque_fn', 'number': 'opaque_fn', 'int': 'opaque_fn', 'ord': 'opaque_fn',
          'self.readSequence': 'TeX.readSequence', 'self.itertokens': 'TeX.itertokens',
-         'self.ownerDocument.createElement': 'Document.createElement'}
+         'self.ownerDocument.createElement': 'Document.createElement', 'self.readOneOptionalSpace': 'TeX.readOneOptionalSpace'}
+P.fn('TeX.readOneOptionalSpace', params=dict(self='TeX'), returns='none', trusted=True, modifies=[Mod('pos', 'r is self')],
+     ensures=BAL + ['self.pos >= old(self.pos)', 'self.pos <= old(self.pos) + 1', 'self.pos <= len(XS())', '0 <= self.pos'],
+     notes='consumes at most one blank token; does not touch the parameter switch')
 P.fn('Document.createElement', params=dict(self='Any', name='str'), returns='Any', ensures=BAL, allocates=True, modifies=[], trusted=True,
      notes='creating a macro instance does not touch the parameter switch or the stream')
 P.contracts['TeX.readOptionalSigns/any'].ensures = BAL + ['0 <= self.pos', 'self.pos <= len(XS())']
